@@ -267,8 +267,19 @@ func (x *wideCtx) wideOp(op Op, k **chainkit.Kit) bool {
 			}
 			lockDir(x.wr.Dir)
 			*k = newKitOpt(x.wr.Dir, x.w.MaxDat)
+			post := stateOf((*k).Ch)
+			if op.Name != "" {
+				// library mode re-applies the blocks found on disk above the snapshot's block (blocks undone by the operator): the
+				// restarted node must be at the named block - the state itself is checked against the independent replay in phase B
+				x.wr.Restarts = append(x.wr.Restarts, [2]*State{pre, post})
+				if post.Tip != x.wr.Hash[op.Name] {
+					x.wr.RestartDiff = fmt.Sprintf("library-mode restart (NewChainExt): before the clean shutdown: %s; after the restart: %s; expected block %s (%s)", stateStr(pre), stateStr(post), op.Name, x.wr.Hash[op.Name][:16])
+					x.wr.Err = "clean shutdown + restart inside the history does not come up at the expected block: " + x.wr.RestartDiff
+				}
+				return
+			}
 			// "a clean shutdown followed by a restart reproduces the pre-shutdown state exactly" (miss4.go)
-			x.restartCheck("library-mode restart (NewChainExt)", pre, stateOf((*k).Ch))
+			x.restartCheck("library-mode restart (NewChainExt)", pre, post)
 		}()
 	default:
 		return false
